@@ -2083,7 +2083,240 @@ def c07(tier):
                                    "names that conflict with each other leave the tree unspecified (only confinement and no-panic are required)"])
 
 
-CHECKS = {"C07": c07, "C18": c18, "C06": c06, "C11": c11, "C20": c20, "C10": c10, "C04": c04, "C15": c15, "C16": c16, "C09": c09, "C19": c19, "C03": c03, "C13": c13, "C14": c14, "C01": c01, "C02": c02, "C12": c12, "C17": c17}
+
+def _fnv64(b):
+    h = 0xcbf29ce484222325
+    for x in b:
+        h ^= x
+        h = (h * 0x100000001b3) & 0xFFFFFFFFFFFFFFFF
+    return "%016x" % h
+
+
+def _big(v):
+    return [v >> 24, v & 0xFFFFFF]
+
+
+class ZeroCrc:
+    """CRC-32 of head + zeros + tail payloads, computed with zlib (independent of the crate), incrementally"""
+
+    def __init__(self):
+        import zlib
+        self.z = zlib
+        self.cache = {}
+        self.block = bytes(1 << 24)
+
+    def crc(self, n, head=b"", tail=b""):
+        k = (n, head, tail)
+        if k not in self.cache:
+            c = self.z.crc32(head)
+            left = n - len(head) - len(tail)
+            while left > 0:
+                m = min(left, len(self.block))
+                c = self.z.crc32(self.block[:m] if m < len(self.block) else self.block, c)
+                left -= m
+            c = self.z.crc32(tail, c)
+            self.cache[k] = "%08x" % (c & 0xFFFFFFFF)
+        return self.cache[k]
+
+
+def zip64_scenarios(tier, rnd):
+    import zlib
+    zc = ZeroCrc()
+    T = 1 << 32
+    scs = []
+
+    def names_digest(names):
+        return "%08x" % (zlib.crc32("".join(_fnv64(n.encode()) for n in names).encode()) & 0xFFFFFFFF)
+
+    def writer_sc(sc, ops, select=None, read=None):
+        names, sizes, cur = [], [], None
+        for o in ops:
+            if o["op"] == "start":
+                names.append(o["name"])
+            elif o["op"] == "dir":
+                names.append(o["name"] + "/")
+            elif o["op"] == "bulk":
+                for i in range(o["count"]):
+                    dirs = o.get("dirs_every", 0)
+                    names.append("%s%d" % (o["prefix"], i) + ("/" if dirs and i % dirs == 0 else ""))
+        return {"sc": sc, "kind": "write", "ops": ops, "select": select or [1, -1], "read": read or [],
+                "expect": {"producer": "writer", "n": len(names), "names_digest": names_digest(names), "sizes": []}}
+
+    def big_entry(sc, size, large, then_small=True, comment=None, extra_first=None):
+        """one entry of `size` zero-ish bytes (head/tail markers), optionally followed by a small one"""
+        head, tail = b"\xaa\xbb", b"\xcc\xdd\xee"
+        ops = []
+        if extra_first:
+            ops += [{"op": "start", "name": "first", "large": False, "method": 0}, {"op": "data", "data": {"len": extra_first, "seed": 3, "kind": "rand"}}]
+        ops += [{"op": "start", "name": "big", "large": large, "method": 0},
+                {"op": "zeros", "n": size, "head": head.hex(), "tail": tail.hex()}]
+        if then_small:
+            ops += [{"op": "start", "name": "after", "large": False, "method": 8}, {"op": "data", "data": "small entry after the big one"},
+                    {"op": "dir", "name": "d"}]
+        if comment:
+            ops.append({"op": "comment", "c": comment})
+        ops.append({"op": "finish"})
+        k = 2 if extra_first else 1
+        s = writer_sc(sc, ops, select=[1, 2, 3, -1], read=[])
+        fits = large or size <= T - 1
+        if fits:
+            s["read"] = [{"i": k, "head": len(head), "tail": len(tail), "expect": {"len": _big(size), "head": head.hex(), "tail": tail.hex()}}]
+            s["expect"]["sizes"] = [{"i": k, "usize": _big(size), "crc": zc.crc(size, head, tail)}]
+        return s
+    # entry sizes at the 32-bit limit, with and without large_file
+    sizes = [T - 1, T, T + 1] if tier == "quick" else [T - 2, T - 1, T, T + 1, 5 * (1 << 30)]
+    for sz in sizes:
+        for large in (False, True):
+            if tier == "quick" and (sz, large) in ((T - 1, True), (T + 1, False)):
+                continue
+            scs.append(big_entry("size-%d-%s" % (sz, "large" if large else "plain"), sz, large, comment="zip64" if sz % 2 else None))
+    # header offset of the following entry / start of the directory exactly at the limit and either side:
+    # local header of "big" = 30 + 3 (+20 if large); data ends at hdr + size
+    offs = [T - 1, T] if tier == "quick" else [T - 2, T - 1, T, T + 1]
+    for target in offs:
+        # next header offset = 53 + size  (large entry "big")
+        scs.append(big_entry("hdroff-%d" % target, target - 53, True))
+        # directory offset = target: big (large) only, no following entry: cd_start = 53 + size
+        scs.append(big_entry("cdoff-%d" % target, target - 53, True, then_small=False))
+    if tier == "thorough":
+        scs.append(big_entry("first-then-big", T + 7, True, extra_first=1000))
+    # entry counts at the 16-bit limit
+    counts = [65535, 65536] if tier == "quick" else [65534, 65535, 65536, 65537, 70000]
+    for n in counts:
+        ops = [{"op": "bulk", "count": n, "prefix": "e", "data": "" if n % 2 else "x", "dirs_every": 0 if n % 3 else 1000}]
+        if n % 2 == 0:
+            ops.append({"op": "comment", "c": "count %d" % n})
+        ops.append({"op": "finish"})
+        s = writer_sc("count-%d" % n, ops, select=[1, 2, 65534, 65535, 65536, 65537, -1])
+        scs.append(s)
+    # a foreign producer at real sizes: sparse archive, ZIP64 fields in the layouts the specification allows
+    import struct
+    def foreign(sc, usize, force, z64end, prefix=0):
+        head = b"\x01\x02\x03"
+        crc = int(zc.crc(usize, head, b""), 16)
+        name = b"foreign-big"
+        segs = []
+        pos = prefix
+        lz = struct.pack("<HHQQ", 1, 16, usize, usize)
+        lfh = struct.pack("<IHHHHHIIIHH", 0x04034b50, 45, 0, 0, 0x6000, 0x5821, crc, 0xFFFFFFFF, 0xFFFFFFFF, len(name), len(lz)) + name + lz
+        segs.append([pos, (lfh + head).hex()])
+        hdr1 = pos - prefix
+        pos += len(lfh) + usize
+        name2 = b"tail.txt"
+        data2 = b"after the big one"
+        crc2 = zlib.crc32(data2) & 0xFFFFFFFF
+        lfh2 = struct.pack("<IHHHHHIIIHH", 0x04034b50, 20, 0, 0, 0x6000, 0x5821, crc2, len(data2), len(data2), len(name2), 0) + name2
+        segs.append([pos, (lfh2 + data2).hex()])
+        hdr2 = pos - prefix
+        pos += len(lfh2) + len(data2)
+        cd_start = pos - prefix
+        cd = b""
+        for (nm, c, us, hd) in ((name, crc, usize, hdr1), (name2, crc2, len(data2), hdr2)):
+            z = b""
+            f_us, f_cs, f_off = us, us, hd
+            if us > 0xFFFFFFFF or "usize" in force:
+                z += struct.pack("<Q", us)
+                f_us = 0xFFFFFFFF
+            if us > 0xFFFFFFFF or "csize" in force:
+                z += struct.pack("<Q", us)
+                f_cs = 0xFFFFFFFF
+            if hd > 0xFFFFFFFF or "off" in force:
+                z += struct.pack("<Q", hd)
+                f_off = 0xFFFFFFFF
+            x = (struct.pack("<HH", 1, len(z)) + z) if z else b""
+            other = struct.pack("<HH", 0xcafe, 3) + b"abc"
+            x = (other + x) if "z64_last" in force else (x + other)
+            cd += struct.pack("<IHHHHHHIIIHHHHHII", 0x02014b50, 0x032d, 45, 0, 0, 0x6000, 0x5821, c, f_cs, f_us, len(nm), len(x), 0, 0, 0, 0o100644 << 16, f_off) + nm + x
+        segs.append([pos, cd.hex()])
+        pos += len(cd)
+        cd_size = len(cd)
+        tailb = b""
+        if z64end or cd_start > 0xFFFFFFFF:
+            z64pos = pos - prefix
+            tailb += struct.pack("<IQHHIIQQQQ", 0x06064b50, 44, 45, 45, 0, 0, 2, 2, cd_size, cd_start)
+            tailb += struct.pack("<IIQI", 0x07064b50, 0, z64pos, 1)
+            tailb += struct.pack("<IHHHHIIH", 0x06054b50, 0, 0, 2, 2, min(cd_size, 0xFFFFFFFF), 0xFFFFFFFF, 7) + b"foreign"
+        else:
+            tailb += struct.pack("<IHHHHIIH", 0x06054b50, 0, 0, 2, 2, cd_size, cd_start, 7) + b"foreign"
+        segs.append([pos, tailb.hex()])
+        pos += len(tailb)
+        if prefix:
+            segs.append([0, (b"PREFIX" * 3).hex()])
+        return {"sc": sc, "kind": "foreign", "segments": segs, "len": pos, "select": [1, 2], "allow_trailing": False,
+                "read": [{"i": 1, "head": 3, "tail": 0, "expect": {"len": _big(usize), "head": head.hex(), "tail": ""}}],
+                "expect": {"producer": "foreign", "n": 2, "names_digest": names_digest([name.decode(), name2.decode()]),
+                           "sizes": [{"i": 1, "usize": _big(usize), "crc": "%08x" % crc}]}}
+    scs.append(foreign("foreign-T+5", T + 5, set(), True))
+    if tier == "thorough":
+        scs.append(foreign("foreign-T-1-forced", T - 1, {"usize", "csize", "off", "z64_last"}, True, prefix=77))
+        scs.append(foreign("foreign-small-forced", 1000, {"usize", "off"}, True))
+        scs.append(foreign("foreign-5g", 5 * (1 << 30) + 1, {"off"}, True, prefix=1 << 16))
+    return scs
+
+
+def c08(tier):
+    rep = Report("C08", tier)
+    wd = vlib.workdir("C08", tier)
+    vlib.build_harness()
+    r = vlib.tlc_mc("MC_Zip64.tla", "MC_Zip64.cfg", wd, timeout=600, tag="mc-zip64")
+    rep.add_mc(r, "MC_Zip64.cfg")
+    if r["error"]:
+        rep.spec_violation(r, "MC_Zip64.cfg")
+    for bug in ("need_ge", "count_ge"):
+        r = vlib.tlc_mc("MC_Zip64.tla", "MC_Zip64_%s.cfg" % bug, wd, timeout=300, tag="mc-" + bug)
+        found = bool(r["error"]) and "Rules" in r["error"]
+        rep.neg_controls.append({"spec_mutant": bug, "expected_violation": "Rules", "found": found})
+        if not found:
+            raise ToolTrouble("spec mutant %s not detected" % bug)
+    # the writer model at scaled thresholds (NoWrappedSizes, LayoutWellFormed around Thr16/ThrN/Thr32)
+    mc_writer(rep, wd, "quick")
+    sd = vlib.seed()
+    rnd = random.Random(sd * 6469 + 8)
+    scs = zip64_scenarios(tier, rnd)
+    progs = os.path.join(wd, "zip64-scenarios.ndjson")
+    trace = os.path.join(wd, "zip64-trace.ndjson")
+    vlib.write_ndjson(progs, scs)
+    vlib.run_harness(["zexec", progs, trace], timeout=7200)
+    run_trace(rep, wd, "Trace_Zip64", trace, "zip64", {s["sc"]: {k: v for k, v in s.items() if k != "segments"} for s in scs})
+    evs = vlib.read_ndjson(trace)
+    rep.evaluations += len(scs)
+    for s in scs:
+        rep.distinct.add(s["sc"])
+    outc = {}
+    for e in evs:
+        if e.get("ev") in ("ZWrite", "ZFinish", "ZRead"):
+            k = "%s:%s" % (e["ev"], e.get("r"))
+            outc[k] = outc.get(k, 0) + 1
+    rep.notes["call_outcomes"] = outc
+    rep.notes["scenarios"] = [s["sc"] for s in scs]
+    a = next(e for e in evs if e.get("ev") == "ZArch" and e.get("z64"))
+    rep.samples.append({"scenario": a["sc"], "n": a["n"], "cd_start": a["cd_start"], "eocd": {k: a["eocd"][k] for k in ("n_total", "cd_size", "cd_offset")},
+                        "z64": {k: a["z64"][0][k] for k in ("n_total", "cd_size", "cd_offset")},
+                        "first_selected_central": {k: a["sel"][0]["c"][k] for k in ("usize32", "csize32", "off32", "usize", "csize", "off", "zcount")}})
+    # binding demonstration
+    seg = [e for e in evs if e.get("sc") == a["sc"]]
+    ai = next(i for i, e in enumerate(seg) if e.get("ev") == "ZArch")
+
+    def mutate(es, ai=ai):
+        es[ai]["z64"][0]["n_total"][1] += 1
+        return "ZIP64 end record entry count off by one"
+    nc = vlib.corrupt_and_expect_reject("Trace_Zip64.tla", "Trace_Zip64.cfg", seg, wd, mutate, tag="zip64-neg")
+    rep.neg_controls.append(nc)
+    if not nc["rejected"]:
+        raise ToolTrouble("negative control did not fire: " + nc["mutation"])
+    return rep.finish("model_checking",
+                      "MC_Zip64: the two-limb restatement of the ZIP64 rules (Zip64.tla) equals the integer rules of ZipFormat/ZipWriter for all values "
+                      "around scaled limits (need_ge/count_ge spec mutants found); MC_Writer: NoWrappedSizes/LayoutWellFormed at scaled limits. Binding at the "
+                      "REAL limits through a sparse store: entries of 2^32-1 / 2^32 / 2^32+1 (thorough: -2 and 5 GiB too) bytes with and without large_file "
+                      "(oversize write must fail and poison the writer), following-entry header offsets and directory offsets at 2^32-1 / 2^32 (thorough +-2), "
+                      "65535 / 65536 (thorough 65534..70000) entries, foreign sparse archives with >4 GiB entries and forced ZIP64 fields; the independently "
+                      "lexed records (exact two-limb numbers) must satisfy Zip64!CentralOk/CentralWriter/LocalAgrees/LocalWriter/EndOk/EndWriter, the real reader "
+                      "must report exactly the lexed values, entry counts/names in order (digest) and contents (length, markers, zero run, CRC from zlib) must match",
+                      assumptions=["payloads are zero runs between markers (the sparse store keeps only non-zero pages)", "a central directory larger than 4 GiB is not realised",
+                                   "per-entry records are validated for the selected boundary entries; all entries contribute to the count/name digest and lexer-level flags"])
+
+
+CHECKS = {"C08": c08, "C07": c07, "C18": c18, "C06": c06, "C11": c11, "C20": c20, "C10": c10, "C04": c04, "C15": c15, "C16": c16, "C09": c09, "C19": c19, "C03": c03, "C13": c13, "C14": c14, "C01": c01, "C02": c02, "C12": c12, "C17": c17}
 
 
 def setup():
